@@ -84,6 +84,7 @@ func New() Wait {
 func (mw multList) RegisterWithC(id uint64, done chan struct{}) WaitResult {
 	w := mw[id%uint64(len(mw))]
 	e := newResultData(done)
+	verifPoint("wait.register")
 	w.l.Lock()
 	defer w.l.Unlock()
 	rd := w.m[id]
